@@ -607,7 +607,7 @@ func c08R3(c *Ctx) {
 			ob.Fail("parseVal return has origin %s (neither the operand itself nor a fresh allocation)", o)
 		}
 	}
-	c.R.Floor("C08.R3", nParam+nFresh, 31)
+	c.R.Floor("C08.R3", nParam+nFresh, 3)
 	c.Ob("C08.R3", "parseVal/operand-arms", fn.Pos()).Check(nParam >= 1, itoa(nParam)+" return(s) hand back the operand (which arms: C12.R1)", "no pass-through arm: a container operand would be wrapped or re-built")
 }
 
